@@ -143,8 +143,8 @@ pub fn get(prop: &str, tier: &str) -> Option<Check> {
                 batches.push(Batch { name: "client_blocked_write", f: scen::robust::run_client_blocked_write, cfg: cfg(Mode::Racy, true, 0), runs: n(5_000, 150_000), real: REAL_CLIENT_TCP, stub: STUB_CLIENT_TCP });
             }
             if p == "C10" || p == "C13" {
-                batches.push(Batch { name: "client_zero_retry_delay", f: scen::client::run_zero_retry, cfg: cfg(Mode::Racy, true, 0), runs: n(400, 10_000), real: REAL_CLIENT_TCP, stub: STUB_CLIENT_TCP });
-                batches.push(Batch { name: "rtu_client_zero_retry_delay", f: scen::client::run_zero_retry, cfg: cfg(Mode::Racy, true, 1), runs: n(400, 10_000), real: REAL_CLIENT_RTU, stub: STUB_CLIENT_RTU });
+                batches.push(Batch { name: "client_zero_retry_delay", f: scen::client::run_zero_retry, cfg: cfg(Mode::Racy, true, 0), runs: n(400, 3_000), real: REAL_CLIENT_TCP, stub: STUB_CLIENT_TCP });
+                batches.push(Batch { name: "rtu_client_zero_retry_delay", f: scen::client::run_zero_retry, cfg: cfg(Mode::Racy, true, 1), runs: n(400, 3_000), real: REAL_CLIENT_RTU, stub: STUB_CLIENT_RTU });
             }
             if p == "C10" || p == "C11" {
                 batches.push(Batch { name: "e2e_relay", f: scen::e2e::run, cfg: cfg(Mode::Racy, false, 0), runs: n(10_000, 300_000), real: REAL_E2E, stub: STUB_E2E });
@@ -228,8 +228,8 @@ pub fn get(prop: &str, tier: &str) -> Option<Check> {
                 Batch { name: "backlog_vs_shutdown_tcp", f: scen::robust::run_backlog_vs_shutdown, cfg: cfg(Mode::Racy, true, 0), runs: n(20_000, 500_000), real: REAL_SERVER_TCP, stub: STUB_SERVER_TCP },
                 Batch { name: "backlog_vs_shutdown_rtu", f: scen::robust::run_backlog_vs_shutdown, cfg: cfg(Mode::Racy, true, 1), runs: n(5_000, 100_000), real: REAL_SERVER_RTU, stub: STUB_SERVER_RTU },
                 Batch { name: "rtu_server_edge", f: scen::rtu::run_server_edge, cfg: cfg(Mode::Racy, true, 0), runs: n(20_000, 500_000), real: REAL_SERVER_RTU, stub: STUB_SERVER_RTU },
-                Batch { name: "client_zero_retry_delay", f: scen::client::run_zero_retry, cfg: cfg(Mode::Racy, true, 0), runs: n(400, 10_000), real: REAL_CLIENT_TCP, stub: STUB_CLIENT_TCP },
-                Batch { name: "rtu_client_zero_retry_delay", f: scen::client::run_zero_retry, cfg: cfg(Mode::Racy, true, 1), runs: n(400, 10_000), real: REAL_CLIENT_RTU, stub: STUB_CLIENT_RTU },
+                Batch { name: "client_zero_retry_delay", f: scen::client::run_zero_retry, cfg: cfg(Mode::Racy, true, 0), runs: n(400, 3_000), real: REAL_CLIENT_TCP, stub: STUB_CLIENT_TCP },
+                Batch { name: "rtu_client_zero_retry_delay", f: scen::client::run_zero_retry, cfg: cfg(Mode::Racy, true, 1), runs: n(400, 3_000), real: REAL_CLIENT_RTU, stub: STUB_CLIENT_RTU },
             ],
             assumptions: vec!["peers that stop reading are injected by the C15 (sessions blocked writing), C13/C10 (client blocked writing), C03 and C20 scenarios rather than by the garbage workloads of this check", "a peer stalling inside the TLS handshake: scen::tls::run_handshake_stall (C15, C13 batches)"],
         },
